@@ -171,6 +171,22 @@ def run(ctx):
                 ctx.spec_fail('use|raises|' + hl, 'a user of the ordering raised %s' % type(e).__name__,
                               dict(case, error=repr(e)))
             ctx.evaluations += 1
+    # the users of the ordering on a table large enough to spill into many chunk files
+    from petl.comparison import Comparable as _C
+    flat = [v for v in U if not has_list(v)]
+    big = [[ctx.rng.choice(flat), i] for i in range(120)]
+    for rev in (False, True):
+        want = [r[1] for r in sorted(big, key=lambda r: _C(r[0]), reverse=rev)]
+        vw = etl.sort([['f', 'i']] + big, 'f', reverse=rev, buffersize=2)
+        for pno in (1, 2):
+            try:
+                got = [r[1] for r in list(vw)[1:]]
+            except Exception as e:   # noqa
+                got = 'ERR ' + type(e).__name__
+            ctx.evaluations += 1
+            if got != want:
+                ctx.spec_fail('use|many-chunk-sort|values', 'a 120-row sort in 60 chunks (reverse=%s, pass %d) disagrees with the ordering' % (rev, pno),
+                              {'reverse': rev, 'pass': pno, 'nrows': 120, 'buffersize': 2})
     ctx.exhaustive = False
 
 
